@@ -82,7 +82,11 @@ def do_step(am, s, st, k, orig_n):
                 kw['atol'] = {'zero': 0.0 if _bits(st, k) & 4 else 0, 'wide': 0.1}[sel['atol']]
                 if scale and sel['atol'] == 'zero' and off == 'exact':
                     kw['atol'] = 1e-12          # through the relative -> Cartesian conversion "exact" means exact to rounding
-    if act == 'interstitial':
+    if act == 'interstitial' and 'near' in a:
+        kw['pos'] = np.array(a['p'], dtype=float) / Q + np.array([1 / 16, 0.0, 0.0])
+        kw['atol'] = 0.1
+        kw['scale'] = False
+    elif act == 'interstitial':
         kw['pos'] = (np.array(a['s'], dtype=float) / 8) if scale else (np.array(a['p'], dtype=float) / Q)
         kw['scale'] = scale
         if a['atype']:
